@@ -7,7 +7,7 @@
    Lua integers: in_i64, wrap64 (two's complement wrap), u64 (unsigned reading). *)
 From C17 Require Import Model Model2 Model3 Proofs ProofsLib ProofsArith ProofsMul ProofsBits ProofsConv ProofsShift
   ProofsMisc ProofsSudiv ProofsDiv ProofsSigned ProofsDiv2 ProofsDiv3 ProofsPow ProofsText ProofsText2 ProofsText3
-  ProofsMixed ProofsBytes ProofsReject ProofsObj ProofsSpace ProofsLit.
+  ProofsMixed ProofsBytes ProofsReject ProofsObj ProofsSpace ProofsLit ProofsLit2.
 From C17 Require Import Model4 Model5 ModelObj.
 Local Open Scope Z_scope.
 
@@ -456,6 +456,27 @@ Theorem C17_literal_split_partition : forall isdig m1 m2 s neg int frac e,
 Proof. exact split_partition. Qed.
 Print Assumptions C17_literal_split_partition.
 
+(* ... and conversely every text of that shape is accepted with exactly these captures (the point and the exponent
+   marks must not be digits of the class: then the greedy, non-backtracking reading is the only one) *)
+Theorem C17_literal_split_complete : forall isdig m1 m2 sg m mt et neg int frac e,
+  isdig 46 = false /\ isdig 112 = false /\ isdig 80 = false ->
+  (m = m1 \/ m = m2) ->
+  ((neg = true /\ sg = [45]) \/ (neg = false /\ (sg = [43] \/ sg = []))) ->
+  mant_shape isdig mt int frac -> exp_shape et e ->
+  split_lit isdig m1 m2 (sg ++ 48 :: m :: mt ++ et) = Some (neg, int, frac, e).
+Proof. exact split_complete. Qed.
+Print Assumptions C17_literal_split_complete.
+
+(* the two patterns of bn.lua: accepted with captures (neg, int, frac, e) iff the text has that reading; refused iff it has none *)
+Theorem C17_literal_split_exact : forall s,
+  (forall neg int frac e,
+    (split_bin s = Some (neg, int, frac, e) <-> lit_shape is_bindigit 98 66 s neg int frac e) /\
+    (split_hex s = Some (neg, int, frac, e) <-> lit_shape is_hexdigit 120 88 s neg int frac e)) /\
+  (split_bin s = None <-> forall neg int frac e, ~ lit_shape is_bindigit 98 66 s neg int frac e) /\
+  (split_hex s = None <-> forall neg int frac e, ~ lit_shape is_hexdigit 120 88 s neg int frac e).
+Proof. exact split_exact. Qed.
+Print Assumptions C17_literal_split_exact.
+
 (* integer literals, from the text: [+-]0b<bits>, [+-]0x<hex digits>, decimal digits *)
 Theorem C17_literal_text_exact : forall sg ds, sign_ok sg -> ds <> [] ->
   (forall m, m = 98 \/ m = 66 -> forallb is_bindigit ds = true ->
@@ -470,14 +491,26 @@ Theorem C17_literal_text_exact : forall sg ds, sign_ok sg -> ds <> [] ->
 Proof. exact from_text_correct. Qed.
 Print Assumptions C17_literal_text_exact.
 
-(* a text with a binary / hexadecimal prefix that the literal pattern does not match is an error ('malformed ... number') *)
+(* a text with a binary / hexadecimal prefix that the literal pattern does not match is an error ('malformed ... number').
+   By itself this is the model's branch read off (definitional); which texts those are is C17_literal_split_exact, and
+   C17_literal_malformed_shape puts the two together. *)
 Theorem C17_literal_malformed_exact : forall s,
   (has_prefix 98 66 s = true -> split_bin s = None -> bn_from_text s = TMalformed) /\
   (has_prefix 98 66 s = false -> has_prefix 120 88 s = true -> split_hex s = None -> bn_from_text s = TMalformed).
 Proof. exact from_text_malformed. Qed.
 Print Assumptions C17_literal_malformed_exact.
 
-(* the assertion must test the first capture: testing the second one (truthy failure label) lets "0x3 " through *)
+Theorem C17_literal_malformed_shape : forall s,
+  (has_prefix 98 66 s = true -> (forall neg int frac e, ~ lit_shape is_bindigit 98 66 s neg int frac e) -> bn_from_text s = TMalformed) /\
+  (has_prefix 98 66 s = false -> has_prefix 120 88 s = true ->
+     (forall neg int frac e, ~ lit_shape is_hexdigit 120 88 s neg int frac e) -> bn_from_text s = TMalformed).
+Proof. exact from_text_malformed_shape. Qed.
+Print Assumptions C17_literal_malformed_shape.
+
+(* Tripwire only.  Under the other policy (assertion on the second result, lpeglabel's truthy failure label) the model does
+   not claim an error for the refused text "0x3 ": it answers TOther, "not modelled" (the code went on to tonumber(v) and
+   returned 3.0, which the correspondence run observes after a revert: implementation 'float', oracle 'raises').  One
+   instance; the content is that C17_literal_malformed_exact/_shape are false for bn_from_text_pol false. *)
 Theorem C17_literal_match_check_needed :
   bn_from_text_pol false [48; 120; 51; 32] <> TMalformed /\ split_hex [48; 120; 51; 32] = None.
 Proof. exact literal_check_neg_needed. Qed.
